@@ -1,4 +1,5 @@
 import OpenFecVerif.Model.Gauss
+import OpenFecVerif.Proofs.GaussSound
 /-!
 # C03 — LDPC-Staircase `of_finish_decoding` is ML-complete
 
@@ -109,3 +110,66 @@ theorem C03_outcome_payload_free {σ τ : Type} (O : Ops σ) (O' : Ops τ) (q : 
     (h : rows.map (·.1) = rows'.map (·.1)) :
     (Gauss.solve O q rows).isSome = (Gauss.solve O' q rows').isSome := by
   rw [C03_success_is_rank_test, C03_success_is_rank_test, h]
+
+
+/-! Part 2: the solver is sound and ML-complete (Proofs/GaussSound.lean).  `Gauss.Sat O x r` : the assignment `x` (one symbol
+per unknown) satisfies equation `r`; `Gauss.InKernel rows v` : the 0/1 vector `v` is in the kernel of the coefficient matrix;
+`Gauss.Lawful O` : symbol addition is associative, commutative, with neutral element, every symbol its own opposite. -/
+
+open Gauss in
+/-- **Soundness.** Whatever the solver returns is the only candidate: every assignment satisfying all the equations equals it.
+In decoding the transmitted block satisfies every equation, so a returned symbol can only be the transmitted one. -/
+theorem C03_solve_unique {σ : Type} {O : Ops σ} (hO : Lawful O) (q : Nat) (rows : List (Gauss.Row σ)) (hw : Wide q rows)
+    (hlen : q ≤ rows.length) (xs : List σ) (h : solve O q rows = some xs) :
+    xs.length = q ∧ ∀ x : List σ, x.length = q → (∀ r ∈ rows, Sat O x r) → x = xs :=
+  solve_unique hO q rows hw hlen xs h
+
+open Gauss in
+theorem C03_solve_sound {σ : Type} {O : Ops σ} (hO : Lawful O) (q : Nat) (rows : List (Gauss.Row σ)) (hw : Wide q rows)
+    (hlen : q ≤ rows.length) (xs : List σ) (h : solve O q rows = some xs) (x : List σ) (hx : x.length = q)
+    (hsat : ∀ r ∈ rows, Sat O x r) : xs = x ∧ ∀ r ∈ rows, Sat O xs r :=
+  solve_sound hO q rows hw hlen xs h x hx hsat
+
+open Gauss in
+theorem homog_coeffs {σ : Type} (rows : List (Gauss.Row σ)) : (homog rows).map (·.1) = rows.map (·.1) := by
+  simp [homog, List.map_map, Function.comp]
+
+open Gauss in
+/-- **ML-completeness.** The solver succeeds exactly when the coefficient matrix has full column rank, i.e. when the only 0/1
+vector in its kernel is zero — exactly when the unknowns are uniquely determined by the equations.  Both directions, for every
+p × q system with p ≥ q and any right-hand sides. -/
+theorem C03_solve_iff_full_rank {σ : Type} (O : Ops σ) (q : Nat) (rows : List (Gauss.Row σ)) (hw : Wide q rows) (hlen : q ≤ rows.length) :
+    (solve O q rows).isSome = true ↔ ∀ v : List Bool, v.length = q → InKernel rows v → v = List.replicate q false := by
+  have hwB : Wide q (homog rows) := by
+    intro r hr; obtain ⟨r0, hr0, rfl⟩ := List.mem_map.mp hr; exact hw r0 hr0
+  have hlenB : q ≤ (homog rows).length := by simpa [homog] using hlen
+  have hsame : (solve O q rows).isSome = (solve boolOps q (homog rows)).isSome := by
+    rw [C03_success_is_rank_test, C03_success_is_rank_test, homog_coeffs]
+  constructor
+  · intro hs v hv hk
+    rw [hsame] at hs
+    obtain ⟨xs, hxs⟩ := Option.isSome_iff_exists.mp hs
+    have hu := solve_unique boolOps_lawful q (homog rows) hwB hlenB xs hxs
+    have h1 := hu.2 v hv ((inKernel_iff rows v).mp hk)
+    have h0 := hu.2 (List.replicate q false) (by simp) ((inKernel_iff rows _).mp (fun r _ => dot_zeros r.1 q))
+    rw [h1, ← h0]
+  · intro hall
+    rw [hsame]
+    cases hs : solve boolOps q (homog rows) with
+    | some xs => rfl
+    | none =>
+      exfalso
+      have htn : triangularize boolOps q (homog rows) = none := by
+        unfold solve at hs
+        cases ht : triangularize boolOps q (homog rows) with
+        | none => rfl
+        | some t => rw [ht] at hs; simp at hs
+      obtain ⟨v, hv, hne, hker⟩ := fail_kernel q (homog rows) hwB hlenB
+        (by intro r hr; obtain ⟨r0, _, rfl⟩ := List.mem_map.mp hr; rfl) htn
+      exact hne (hall v hv ((inKernel_iff rows v).mpr (fun r hr => by
+        obtain ⟨r0, _, rfl⟩ := List.mem_map.mp hr
+        unfold Sat; exact hker _ hr)))
+
+-- non-vacuity: a 3 × 2 system of full column rank over byte-string symbols is solved; a rank-deficient one is refused
+example : Gauss.fullColRank 2 [[true, true], [true, true], [false, true]] = true ∧ Gauss.fullColRank 2 [[true, true], [true, true], [false, false]] = false := by
+  decide
